@@ -417,8 +417,13 @@ where
     let chunk = 4096u64;
     let chunks = (n + chunk - 1) / chunk;
     let members = std::sync::atomic::AtomicU64::new(0);
+    let skipped = std::sync::atomic::AtomicU64::new(0);
     (0..chunks).into_par_iter().for_each(|c| {
         if run.has_violation() {
+            return;
+        }
+        if run.over_budget() {
+            skipped.fetch_add(1, Ordering::Relaxed);
             return;
         }
         for i in (c * chunk)..((c + 1) * chunk).min(n) {
@@ -441,6 +446,10 @@ where
             }
         }
     });
+    let sk = skipped.load(Ordering::Relaxed);
+    if sk > 0 {
+        run.cap(format!("wall-clock budget reached inside a family enumeration: {} of {} index chunks (of {} indices each) were not visited", sk, chunks, chunk));
+    }
     members.load(Ordering::Relaxed)
 }
 
